@@ -152,6 +152,14 @@ func runC01(c *core.Ctx) {
 	evals += int64(len(cases)) * 2
 	c.Count("truncations_of_generated_documents", int64(len(cases)))
 	c.Programs = int64(nDocs)
+	// block strings indented in every way and text that is not a token, at every definition boundary
+	lfam := LexFamilies()
+	c.Pool.ParFor(len(lfam), func(w, i int) {
+		c.CheckCase(w, "lex", thm, []byte(lfam[i]))
+		check(w, []byte(lfam[i]), []int{0, 2, 5}[i%3])
+	})
+	evals += int64(len(lfam)) * 3
+	c.Count("block_string_bodies_and_non_token_placements", int64(len(lfam)))
 	// every prefix of strings made of escapes (look-ahead at the end of input)
 	esc := EscapeTruncations()
 	c.Pool.ParFor(len(esc), func(w, i int) {
